@@ -548,7 +548,11 @@ class FuncEmitter:
             ct = 'char*' if (i.dst in s.pl or isinstance(rt, PtrT)) else G.ctype(i.ty)
             if not i.attrs.get('priv'):
                 s.visible('load', f"{order or 'na'} {i.raw.strip()[:70]}")
-                if G.hb: s.S(f"VP_HB_LOAD({P}, {M.sizeof(i.ty)}, VP_O_{(order or 'na').upper()});")
+                if G.hb and order is None: s.S(f"VP_HB_LOAD({P}, {M.sizeof(i.ty)}, VP_O_NA);")
+                if G.hb and order is not None:
+                    prev = f"vp_hb_prev_p({P})" if ct == 'char*' else f"({ct})vp_hb_prev_i({P})"
+                    s.S(f"if (vp_hb_aload({P}, VP_O_{order.upper()})) {D} = {prev}; else {D} = *({ct}*)({P});")
+                    return
             s.S(f"{D} = *({ct}*)({P});")
         elif o == 'store':
             v, ptr, order = a
@@ -560,7 +564,10 @@ class FuncEmitter:
             V = G.val(i.ty, v, env, want_ptr=isp)
             if not i.attrs.get('priv'):
                 s.visible('store', f"{order or 'na'} {i.raw.strip()[:70]}")
-                if G.hb: s.S(f"VP_HB_STORE({P}, {M.sizeof(i.ty)}, VP_O_{(order or 'na').upper()});")
+                if G.hb and order is None: s.S(f"VP_HB_STORE({P}, {M.sizeof(i.ty)}, VP_O_NA);")
+                if G.hb and order is not None:
+                    if ct == 'char*': s.S(f"vp_hb_astore_p({P}, *(char**)({P}), VP_O_{order.upper()});")
+                    else: s.S(f"vp_hb_astore_i({P}, (uint64_t)*({ct}*)({P}), VP_O_{order.upper()});")
                 s.S(f"*({ct}*)({P}) = {V}; vp_epoch++;")
             else:
                 s.S(f"*({ct}*)({P}) = {V};")
